@@ -180,6 +180,9 @@ def analyse_next(crate, nx):
         r0 = nx.local_expr(0)
         if r0[0] == 'call' and short(r0[1]) in ('map', 'and_then', 'copied', 'cloned') and q.find_sub(r0, lambda u: u[0] == 'call' and u[3] == e[3]) is not None:
             governs = True
+        # ... or is the return value itself (`fn next(&mut self) { self.iter.next() }`: pure delegation)
+        if facts.strip_refs(r0)[0] == 'call' and len(facts.strip_refs(r0)) > 3 and facts.strip_refs(r0)[3] == e[3] and t['dest']['l'] == 0 and not t['dest']['p']:
+            governs = True
         # multi-def return slot: any def that maps the result (directly, or through the return slot of a spliced helper)
         for d in nx.defs.get(0, []):
             if d[0] == 'call':
